@@ -45,6 +45,8 @@ func runC01(env *Env) {
 		{Kind: "ctask", ID: 1, N: 0, Kids: []*Blk{{Kind: "task", ID: 2}, {Kind: "task", ID: 3}}},
 		{Kind: "incl", ID: 0, N: 1, Kids: []*Blk{{Kind: "task", ID: 1}, {Kind: "task", ID: 2}, {Kind: "task", ID: 3}}},
 		{Kind: "par", Kids: []*Blk{{Kind: "if", ID: 0, Kids: []*Blk{{Kind: "task", ID: 1}, {Kind: "skip"}}}, {Kind: "incl", ID: 1, N: 2, Kids: []*Blk{{Kind: "task", ID: 2}, {Kind: "task", ID: 3}, {Kind: "task", ID: 4}}}}},
+		// an inclusive block entered again and again (its join must start afresh every time): run under v0 = v1 = true with several answer orders
+		{Kind: "loop", ID: 3, N: 3, Kids: []*Blk{{Kind: "seq", Kids: []*Blk{{Kind: "task", ID: 1}, {Kind: "incl", ID: 0, N: 1, Kids: []*Blk{{Kind: "task", ID: 2}, {Kind: "task", ID: 3}, {Kind: "skip"}}}, {Kind: "task", ID: 4}}}}},
 		// the known finding: a forking gateway nested in an inclusive block (kept last, run once each under the assignment that shows it)
 		{Kind: "incl", ID: 0, N: 1, Kids: []*Blk{{Kind: "incl", ID: 0, N: 1, Kids: []*Blk{{Kind: "task", ID: 1}, {Kind: "task", ID: 2}, {Kind: "skip"}}}, {Kind: "task", ID: 3}, {Kind: "skip"}}},
 	}
@@ -65,7 +67,12 @@ func runC01(env *Env) {
 		blkTasksInLoop(prog, false, inLoop, 0)
 		shapes := map[string]bool{}
 		blkShape(prog, "", shapes)
-		for s := 0; s < nScripts; s++ {
+		ns := nScripts
+		loopIncl := pi == len(fixed)-nFinding-1
+		if loopIncl {
+			ns = nScripts + 4
+		}
+		for s := 0; s < ns; s++ {
 			if rep.Saturated() {
 				break
 			}
@@ -75,6 +82,9 @@ func runC01(env *Env) {
 			}
 			if pi < len(fixed) { // the fixed programs run under every interesting assignment
 				env0[0], env0[1] = s%2 == 0, s/2%2 == 0
+			}
+			if loopIncl {
+				env0[0], env0[1] = true, true
 			}
 			if pi >= len(fixed)-nFinding && pi < len(fixed) {
 				if s > 0 {
